@@ -336,7 +336,8 @@ theorem pf_nat_min_eq (a b : Nat) : Nat.min a b = min a b := rfl
 macro "pkg_feerate_cases" s:ident : tactic => `(tactic| (
   have hu : U32_MAX = 4294967295 := rfl
   have hf : FEERATE_FLOOR_SATS_PER_KW = 253 := rfl
-  unfold computePackageFeerate boundedSatPer1000Weight satAdd32
+  unfold computePackageFeerate boundedSatPer1000Weight
+  try unfold satAdd32
   simp only [pf_nat_max_eq, pf_nat_min_eq, decide_eq_true_eq, ne_eq, decide_not, Bool.not_eq_true', decide_eq_false_iff_not, gt_iff_lt]
   cases $s:ident <;> simp only [] <;> (repeat' split) <;> omega))
 
@@ -368,7 +369,8 @@ theorem computePackageFeerate_force (prev est : Nat) (hp : prev ≠ 0) (hu' : pr
     (computePackageFeerate prev .forceBump est = prev ∧ (5 * boundedSatPer1000Weight est ≤ prev ∨ prev = U32_MAX)) := by
   have hu : U32_MAX = 4294967295 := rfl
   have hf : FEERATE_FLOOR_SATS_PER_KW = 253 := rfl
-  unfold computePackageFeerate boundedSatPer1000Weight satAdd32
+  unfold computePackageFeerate boundedSatPer1000Weight
+  try unfold satAdd32
   simp only [pf_nat_max_eq, pf_nat_min_eq, decide_eq_true_eq, ne_eq, decide_not, Bool.not_eq_true', decide_eq_false_iff_not, gt_iff_lt]
   (repeat' split) <;> omega
 
@@ -377,7 +379,8 @@ theorem computePackageFeerate_force_est (prev est : Nat) (hp : prev ≠ 0) (he :
     computePackageFeerate prev .forceBump est = boundedSatPer1000Weight est := by
   have hu : U32_MAX = 4294967295 := rfl
   have hf : FEERATE_FLOOR_SATS_PER_KW = 253 := rfl
-  unfold computePackageFeerate boundedSatPer1000Weight satAdd32 at *
+  unfold computePackageFeerate boundedSatPer1000Weight at *
+  try unfold satAdd32 at *
   simp only [pf_nat_max_eq, pf_nat_min_eq, decide_eq_true_eq, ne_eq, decide_not, Bool.not_eq_true', decide_eq_false_iff_not, gt_iff_lt] at *
   (repeat' split) <;> omega
 
@@ -387,7 +390,8 @@ theorem computePackageFeerate_force_uncapped (prev est : Nat) (hp : prev ≠ 0) 
     computePackageFeerate prev .forceBump est = satAdd32 prev (prev / 4) := by
   have hu : U32_MAX = 4294967295 := rfl
   have hf : FEERATE_FLOOR_SATS_PER_KW = 253 := rfl
-  unfold computePackageFeerate boundedSatPer1000Weight satAdd32 at *
+  unfold computePackageFeerate boundedSatPer1000Weight at *
+  try unfold satAdd32 at *
   simp only [pf_nat_max_eq, pf_nat_min_eq, decide_eq_true_eq, ne_eq, decide_not, Bool.not_eq_true', decide_eq_false_iff_not, gt_iff_lt] at *
   (repeat' split) <;> (repeat' split at hc) <;> omega
 
